@@ -44,6 +44,8 @@ func init() {
 		simsFor[p] = []simWeight{{"lib", 1}}
 	}
 	simsFor["C05"] = []simWeight{{"lib", 1}}
+	register(c04Sim{})
+	simsFor["C04"] = []simWeight{{"c04", 1}}
 }
 
 var (
